@@ -45,6 +45,9 @@ type c17Case struct {
 	// the harness runs) and of a second one from which the result must be identical
 	CwdBase    string `json:"cwd_basename,omitempty"`
 	AltCwdBase string `json:"alt_cwd_basename,omitempty"`
+	// report options -trim_path / -source_path (process-level configuration, not URL parameters)
+	TrimPath   string `json:"trim_path,omitempty"`
+	SourcePath string `json:"source_path,omitempty"`
 }
 
 // c17Chdir enters <replay dir>/.cwd-<pid>/<base> (created on demand; only its basename matters
@@ -782,6 +785,8 @@ func c17Run(c *Ctx, cs c17Case) {
 				SampleType:   in.SampleType[idx].Type,
 				SampleUnit:   in.SampleType[idx].Unit,
 				SampleValue:  func(v []int64) int64 { return v[idx] },
+				TrimPath:     cs.TrimPath,
+				SourcePath:   cs.SourcePath,
 			}
 			var ss report.StackSet
 			if pn := c17Safely(func() { ss = report.New(in, opts).Stacks() }); pn != "" {
@@ -814,7 +819,7 @@ func c17Run(c *Ctx, cs c17Case) {
 			}
 		case "web":
 			reqs := append(append([]c17Req(nil), cs.Before...), cs.req())
-			pages, werr := c17WebSession(p, reqs)
+			pages, werr := c17WebSession(p, reqs, cs.TrimPath, cs.SourcePath)
 			if werr != "" {
 				c.Violation("C17/web/"+c17FirstWord(werr), "the /flamegraph handler did not serve stack data: "+werr, cs)
 				return nil
@@ -835,7 +840,7 @@ func c17Run(c *Ctx, cs c17Case) {
 			// the answer must not depend on what the server was asked before: the same request on a
 			// fresh server (and, with filters, that is the reference for the stack data itself)
 			if len(cs.Before) > 0 || filtered {
-				fp, ferr := c17WebSession(p, []c17Req{cs.req()})
+				fp, ferr := c17WebSession(p, []c17Req{cs.req()}, cs.TrimPath, cs.SourcePath)
 				if ferr != "" {
 					c.Violation("C17/web/fresh-"+c17FirstWord(ferr), "fresh server: "+ferr, cs)
 					return nil
@@ -893,9 +898,22 @@ func c17Run(c *Ctx, cs c17Case) {
 
 	// (3) correspondence with the Lean model
 	c.Res.ModelCompared++
-	ask := "stacks.model " + strconv.Itoa(cs.SampleIndex) + " " + canonAgg
+	optTok := hexTok([]byte(cs.TrimPath)) + " " + hexTok([]byte(cs.SourcePath)) + " "
+	ask := "stacks.model " + optTok + strconv.Itoa(cs.SampleIndex) + " " + canonAgg
 	if cs.BySel { // the model selects by name itself (exact equality)
-		ask = "stacks.modelsel " + hexTok([]byte(cs.Sel)) + " " + canonAgg
+		ask = "stacks.modelsel " + optTok + hexTok([]byte(cs.Sel)) + " " + canonAgg
+	}
+	// Lean's trimPath must be the documented reading the oracle used
+	seenFile := map[string]bool{}
+	for _, f := range agg.Function {
+		if !seenFile[f.Filename] {
+			seenFile[f.Filename] = true
+			want := "ok " + hexTok([]byte(c17Trim(f.Filename, cs.TrimPath, cs.SourcePath)))
+			if lt := c.Drv.Ask("stacks.trimpath " + optTok + hexTok([]byte(f.Filename))); lt != want {
+				c.Disagree("C17/spec-trimpath", fmt.Sprintf("trimPath(%+q, trim_path=%+q, source_path=%+q): Lean %s, harness oracle %s", f.Filename, cs.TrimPath, cs.SourcePath, c17Trunc(lt), c17Trunc(want)),
+					"correspondence Stacks.trimPath ~ oracle reading of -trim_path/-source_path", cs)
+			}
+		}
 	}
 	reply := c.Drv.Ask(ask)
 	model, merr := c17FromModel(reply)
@@ -914,14 +932,32 @@ func c17Run(c *Ctx, cs c17Case) {
 	} else {
 		c.Res.Hit("model-agrees")
 	}
-	// informational only: unique names are not promised by the property
-	un := true
-	if len(model.Sources) == len(real.Sources) {
+	// unique names: compared exactly with the model (the code as it is) whenever the sources were
+	// interned in the model's order (which source of a homonym group keeps the plain name depends on it)
+	un, sameOrder := true, len(model.Sources) == len(real.Sources) && len(model.Stacks) == len(real.Stacks)
+	if sameOrder { // same interning order: every stack has the same index list
+		for i := range model.Stacks {
+			if fmt.Sprint(model.Stacks[i].Srcs) != fmt.Sprint(real.Stacks[i].Srcs) {
+				sameOrder = false
+			}
+		}
+	}
+	if sameOrder {
 		for i := range model.Sources {
-			if i > 0 && ascii && model.Sources[i].Unique != real.Sources[i].Unique {
+			a, b := model.Sources[i], real.Sources[i]
+			if a.Full != b.Full || a.File != b.File || a.Inlined != b.Inlined {
+				sameOrder = false
+			}
+			if i > 0 && ascii && a.Unique != b.Unique {
 				un = false
 			}
 		}
+	}
+	// (no alarm on a difference: with the same order the only freedom left by the oracle — one plain
+	// name per full name, FullName#<id of a function the source stands for> otherwise — is WHICH of
+	// several function ids of one source is printed, i.e. which frame created the source)
+	if sameOrder && !un {
+		c.Res.Hit("info:unique-name-id-choice-differs-from-model")
 	}
 	if un {
 		c.Res.Hit("info:unique-names-agree")
@@ -974,6 +1010,9 @@ func c17Run(c *Ctx, cs c17Case) {
 	c.Res.Count(cs.Mode+"|"+cs.Gran+"|"+strconv.Itoa(cs.SampleIndex)+"|"+canonAgg, shared)
 	c.Res.Hit("mode:" + cs.Mode)
 	c.Res.Hit("gran:" + cs.Gran)
+	if cs.TrimPath != "" || cs.SourcePath != "" {
+		c.Res.Hit("with-trim_path/source_path")
+	}
 	if recursive {
 		c.Res.Hit("recursive-stack")
 	}
@@ -1036,7 +1075,8 @@ func runC17(c *Ctx) {
 		"earlier requests on the SAME server that differ in one URL parameter (si, g, noinlines, showcolumns, f, i, h, s, tf, ti, reload), " +
 		"answer compared with oracle/model for this request and with a fresh server. In 45% of all cases the sample-type names are adversarial " +
 		"(case-fold families, numbers, inuse_/alloc_ relations, spaces, empty, duplicates) and the column is selected by index or BY NAME. In 12% of the direct and web cases the real code runs from a scratch directory whose basename is a component of the file names, and again " +
-		"from an unrelated one with other HOME/TMPDIR: identical stack sets required. Expected frames come from the harness's own reading " +
+		"from an unrelated one with other HOME/TMPDIR: identical stack sets required. 22% of the direct and web cases run with -trim_path/-source_path values (prefixes of some files, base names occurring in other paths, relative, lists); " +
+		"30% use homonym functions (same name and line in different files; same name+file, different ids). Expected frames come from the harness's own reading " +
 		"of the granularity (= Lean Spec.aggregate), never from Profile.Aggregate; 25% of locations repeat a function in their inline chain. Non-trivial: at least one getSrc call finds an " +
 		"already interned source (slots > distinct sources), i.e. the interning table and the place index are shared " +
 		"between stack slots; recursion (a source twice in one stack) is measured separately."
